@@ -46,7 +46,10 @@ class ArrayRec(Record):
         if attr in ("chunks", "numblocks"):
             # metadata of a dask array; reading it from a numpy array is an AttributeError
             ex.oblige(st, self.is_dask, ex._name("attr", node), f"line {node.lineno}: `.{attr}` is read only from a dask array: {ex.src(node)}")
-            return Opaque(f"{self.name}.{attr}")
+            cache = self.__dict__.setdefault("_meta_objs", {})
+            if attr not in cache:
+                cache[attr] = Opaque(f"{self.name}.{attr}")
+            return cache[attr]
         if attr == "size":
             return fresh("size")
         return Method(self, attr)
